@@ -41,13 +41,9 @@ pub fn file_report(v: &View) -> FileReport {
     let t = &v.out.torrent;
     let g = &t.geometry;
     let cwd = "/sim/cwd";
-    let mut pieces_stored = 0;
-    for i in 0..t.pieces() {
-        let path = format!("{}/{}.piece", cwd, hex_upper(&t.piece_hashes[i]));
-        if v.out.files.get(&path).map(|d| sha1(d) == t.piece_hashes[i]).unwrap_or(false) {
-            pieces_stored += 1;
-        }
-    }
+    // content based: how the client names its piece files is its own business
+    let on_disk: std::collections::BTreeSet<[u8; 20]> = v.out.files.values().map(|d| sha1(d)).collect();
+    let pieces_stored = (0..t.pieces()).filter(|i| on_disk.contains(&t.piece_hashes[*i])).count();
     let extraction_started = v.out.entries.iter().any(|e| matches!(&e.ev, Ev::Disk { op: DiskOp::Create, .. } | Ev::Disk { op: DiskOp::Mkdir, .. }));
     let mut all_ok = true;
     let mut detail = String::new();
@@ -264,18 +260,6 @@ impl Check for C03 {
                 return vd;
             }
         }
-        // partition: every stored piece has exactly its expected length
-        for e in &v.out.entries {
-            if let Ev::Disk { op: DiskOp::Write, path, ok: true, len, .. } = &e.ev {
-                if let Some(i) = (0..t.pieces()).find(|i| path.ends_with(&format!("{}.piece", hex_upper(&t.piece_hashes[*i])))) {
-                    // identical hashes for different indices are possible only with identical data
-                    let want: Vec<usize> = (0..t.pieces()).filter(|j| t.piece_hashes[*j] == t.piece_hashes[i]).map(|j| t.piece_len(j)).collect();
-                    if !want.contains(len) {
-                        vd.fail("C03", "C03.piece-length", format!("piece {} stored with {} bytes, expected {:?}", i, len, want), e.seq);
-                    }
-                }
-            }
-        }
         let fr = file_report(v);
         if !fr.extraction_started {
             vd.inconclusive = Some("download did not finish".into());
@@ -304,11 +288,12 @@ impl Check for C03 {
                 }
             }
         }
-        for p in v.out.files.keys() {
-            if p.ends_with(".piece") || expected.contains(p) {
-                continue;
+        for e in &v.out.entries {
+            if let Ev::Disk { op: DiskOp::Create, path, ok: true, .. } = &e.ev {
+                if !expected.contains(path) {
+                    vd.fail("C03", "C03.unexpected-file", format!("extractor created {:?}, which the torrent does not list", path), e.seq);
+                }
             }
-            vd.fail("C03", "C03.unexpected-file", format!("unexpected file {:?}", p), last_seq);
         }
         vd
     }
